@@ -17,11 +17,18 @@ func init() { runners["C02"] = runC02 }
 type sinkT struct {
 	writes [][]byte
 	broken bool
+	failAt int // >= 0: exactly the Write call with this number fails and delivers nothing (a transient fault)
+	calls  int
 }
 
 func (s *sinkT) Write(p []byte) (int, error) {
+	n := s.calls
+	s.calls++
 	if s.broken {
 		return 0, errors.New("broken transport")
+	}
+	if s.failAt >= 0 && n == s.failAt {
+		return 0, errors.New("write: resource temporarily unavailable")
 	}
 	s.writes = append(s.writes, append([]byte{}, p...))
 	return len(p), nil
@@ -45,8 +52,8 @@ func (o wopT) sx() string {
 }
 
 // runWops performs the calls on a real buffer.Writer.
-func runWops(ops []wopT, broken bool) (writes [][]byte, results []string, panicked bool) {
-	sink := &sinkT{broken: broken}
+func runWops(ops []wopT, broken bool, failAt int) (writes [][]byte, results []string, panicked bool) {
+	sink := &sinkT{broken: broken, failAt: failAt}
 	w := buffer.NewWriter(quiet, sink)
 	defer func() {
 		if r := recover(); r != nil {
@@ -142,8 +149,12 @@ func wopsFrom(n *node) []wopT {
 
 func runC02(c *runCfg) error {
 	id := 0
-	emitW := func(class string, ops []wopT, broken bool) {
-		writes, results, p := runWops(ops, broken)
+	emitW := func(class string, ops []wopT, broken bool, failAt ...int) {
+		fa := -1
+		if len(failAt) > 0 {
+			fa = failAt[0]
+		}
+		writes, results, p := runWops(ops, broken, fa)
 		os := []any{"ops"}
 		for _, o := range ops {
 			os = append(os, o.sx())
@@ -152,7 +163,11 @@ func runC02(c *runCfg) error {
 		for _, w := range writes {
 			ws = append(ws, hx(w))
 		}
-		c.out.line(sx("wops", id, class, sx(os...), sx("broken", broken), sx(ws...), sx("results", results), sx("panic", p)))
+		if fa >= 0 {
+			c.out.line(sx("wops", id, class, sx(os...), sx("broken", broken), sx("failat", fa), sx(ws...), sx("results", results), sx("panic", p)))
+		} else {
+			c.out.line(sx("wops", id, class, sx(os...), sx("broken", broken), sx(ws...), sx("results", results), sx("panic", p)))
+		}
 		c.stat("class_" + class)
 		id++
 	}
@@ -174,7 +189,11 @@ func runC02(c *runCfg) error {
 				if err != nil {
 					return err
 				}
-				emitW("replay", wopsFrom(n.field("ops")), n.field("broken").list[1].atom == "1")
+				if fa := n.field("failat"); fa != nil {
+					emitW("replay", wopsFrom(n.field("ops")), false, atoi(fa.list[1].atom))
+				} else {
+					emitW("replay", wopsFrom(n.field("ops")), n.field("broken").list[1].atom == "1")
+				}
 			}
 		}
 		f.Close()
@@ -188,6 +207,12 @@ func runC02(c *runCfg) error {
 	}
 	for i := 0; i < nw; i++ {
 		emitW("writer", g.wops(), g.chance(0.1))
+	}
+	// a transient fault: exactly one Write call of the transport fails, delivering nothing (an expired write deadline,
+	// a transport temporarily unavailable), the caller goes on writing: whatever was delivered before and after is
+	// whole messages — "a failed write never leaves partial bytes that corrupt the next message"
+	for i := 0; i < nw/10; i++ {
+		emitW("transient_fault", g.wops(), false, i%6)
 	}
 	// (b) whole sessions: every byte the server sends must parse under the strict grammar
 	ns := 1500
